@@ -329,7 +329,12 @@ class Kernel:
     async def shell_handler(self, shell_socket, wire_msg):
         """Handle shell messages."""
 
-        identities, msg = self.deserialize_wire_msg(wire_msg)
+        try:
+            identities, msg = self.deserialize_wire_msg(wire_msg)
+        except Exception as err:
+            # a forged or malformed message is dropped; it must not take the session down
+            _LOGGER.error("shell: ignoring invalid message: %s", err)
+            return
         # _LOGGER.debug("shell received %s: %s", msg.get('header', {}).get('msg_type', 'UNKNOWN'), msg)
         self.parent_header = msg["header"]
 
